@@ -8,6 +8,7 @@ import (
 	"encoding/json"
 	"fmt"
 	"io"
+	"strings"
 	"sync"
 
 	miscreant "github.com/miscreant/miscreant.go"
@@ -118,8 +119,13 @@ func (c *MiscreantCipher) Marshal(s interface{}) (string, error) {
 // Unmarshal takes the marshaled string, base64-decodes into a byte slice, decrypts the
 // byte slice the passed cipher, and unmarshals the resulting JSON into the struct pointer passed
 func (c *MiscreantCipher) Unmarshal(value string, s interface{}) error {
-	// convert base64 string value to bytes
-	ciphertext, err := base64.RawURLEncoding.DecodeString(value)
+	// convert base64 string value to bytes. Only the canonical spelling is accepted: the
+	// decoder skips CR and LF and, unless strict, ignores stray trailing bits, so other
+	// strings would otherwise open to the same value.
+	if strings.ContainsAny(value, "\r\n") {
+		return fmt.Errorf("invalid base64 value: contains line breaks")
+	}
+	ciphertext, err := base64.RawURLEncoding.Strict().DecodeString(value)
 	if err != nil {
 		return err
 	}
